@@ -71,7 +71,7 @@ def answerCore (fs : List (String × String)) : E String := do
   let op ← need fs "op"
   let N ← needNat fs "N"
   if hN : 0 < N then
-    let da ← needMat fs "dist" N N
+    let da ← needInput fs "dist" N N
     let dist : Mat N N Fix := matOf da N N
     let width ← needFix fs "width"
     if op == "lap" then
@@ -212,7 +212,9 @@ def answer (line : String) : String :=
   match answerCore fs with
   | .ok s => s
   | .error e =>
-    if e.startsWith "SKIP:" then "res=" ++ e
+    if e.startsWith "SKIP:" then
+      -- an implementation exception on an input the model skips is counted separately (never silently dropped)
+      (if (field? fs "threw").isSome && field? fs "threw" != some "-" then "res=SKIP:impl-threw-on-skipped-input " else "res=") ++ e
     else if e == "nonuniform" then "res=SKIP:nonuniform-neighbour-lists"
     else "res=BADCASE:" ++ e
 
